@@ -18,7 +18,7 @@
 use linfa::prelude::*;
 use linfa::{DatasetBase, Float};
 use linfa_clustering::{KMeans, KMeansInit};
-use linfa_nn::distance::{Distance, L1Dist, L2Dist};
+use linfa_nn::distance::{Distance, L1Dist, L2Dist, LInfDist, LpDist};
 use lvmc_core::enumerate as en;
 use lvmc_core::{close, guarded, json, Ctx, Level, Value, Violation};
 use ndarray::{Array1, Array2};
@@ -39,7 +39,7 @@ struct Case {
     family: String, // dataset family / affine image
     data: Vec<Vec<f64>>,
     float: String,  // "f32" | "f64"
-    metric: String, // "L2" | "L1"
+    metric: String, // "L2" | "L1" | "Linf" | "Lp3"
     k: usize,
     tol: f64,
     queries: Vec<Vec<f64>>,
@@ -74,6 +74,8 @@ struct Case {
 enum Met {
     L2,
     L1,
+    LInf,
+    Lp3,
 }
 
 #[derive(Default)]
@@ -96,6 +98,9 @@ fn rd(met: Met, a: &[f64], b: &[f64]) -> f64 {
     match met {
         Met::L2 => a.iter().zip(b).map(|(x, y)| (x - y) * (x - y)).sum(),
         Met::L1 => a.iter().zip(b).map(|(x, y)| (x - y).abs()).sum(),
+        // LInfDist / LpDist do not override rdistance: reduced distance == distance
+        Met::LInf => a.iter().zip(b).map(|(x, y)| (x - y).abs()).fold(0.0, f64::max),
+        Met::Lp3 => a.iter().zip(b).map(|(x, y)| (x - y).abs().powi(3)).sum::<f64>().cbrt(),
     }
 }
 
@@ -103,7 +108,7 @@ fn rd(met: Met, a: &[f64], b: &[f64]) -> f64 {
 fn mat_dist(met: Met, a: &[f64], b: &[f64]) -> f64 {
     match met {
         Met::L2 => rd(Met::L2, a, b).sqrt(),
-        Met::L1 => rd(Met::L1, a, b),
+        m => rd(m, a, b),
     }
 }
 
@@ -139,12 +144,12 @@ impl Num {
         let e_c = 2.0 * (n as f64 + 2.0) * eps * mag;
         let tie = match met {
             Met::L2 => 4.0 * diam_l2 * e_c + 4.0 * e_c * e_c + 64.0 * eps * diam_l2 * diam_l2,
-            Met::L1 => 4.0 * d as f64 * e_c + 64.0 * eps * diam_l1,
+            _ => 4.0 * d as f64 * e_c + 64.0 * eps * diam_l1,
         };
         let ctol = (rel * mag).max(4.0 * e_c);
         let crit_noise = match met {
             Met::L2 => 2.0 * e_c * ((k * d) as f64).sqrt(),
-            Met::L1 => 2.0 * e_c * (k * d) as f64,
+            _ => 2.0 * e_c * (k * d) as f64,
         };
         Num { eps, rel, tie, ctol, crit_noise }
     }
@@ -232,7 +237,7 @@ fn ref_step(s: &RState, pts: &[Vec<f64>], w: &[f64], k: usize, d: usize, met: Me
         let mut can_stop = false;
         let mut can_run = false;
         let mut crits = vec![mat_dist(met, &s.cur, &new)];
-        if met == Met::L1 {
+        if met != Met::L2 {
             crits.push(mat_dist(Met::L2, &s.cur, &new));
         }
         for crit in crits {
@@ -1148,7 +1153,7 @@ fn run_seeded<F: Float, D: Distance<F>>(case: &Case, dist: D, met: Met, viols: &
 
 fn run_case(case: &Case, viols: &mut Vec<Violation>) -> Cnt {
     fn go<F: Float, D: Distance<F>>(case: &Case, dist: D, met: Met, viols: &mut Vec<Violation>) -> Cnt {
-        if case.kind == "trajectory" || case.kind == "replicated" {
+        if case.kind != "seeded" {
             run_traj::<F, D>(case, dist, met, viols)
         } else {
             run_seeded::<F, D>(case, dist, met, viols)
@@ -1159,6 +1164,10 @@ fn run_case(case: &Case, viols: &mut Vec<Violation>) -> Cnt {
         ("f64", "L1") => go::<f64, _>(case, L1Dist, Met::L1, viols),
         ("f32", "L2") => go::<f32, _>(case, L2Dist, Met::L2, viols),
         ("f32", "L1") => go::<f32, _>(case, L1Dist, Met::L1, viols),
+        ("f64", "Linf") => go::<f64, _>(case, LInfDist, Met::LInf, viols),
+        ("f32", "Linf") => go::<f32, _>(case, LInfDist, Met::LInf, viols),
+        ("f64", "Lp3") => go::<f64, _>(case, LpDist(3.0f64), Met::Lp3, viols),
+        ("f32", "Lp3") => go::<f32, _>(case, LpDist(3.0f32), Met::Lp3, viols),
         _ => panic!("bad case"),
     }
 }
@@ -1266,19 +1275,20 @@ fn main() {
 
     ctx.set_rule(&format!(
         "datasets: every multiset of 1..={n1} points of {{0..4}} (1-D, duplicates) and every subset of 1..={n2} points of the 3x3 lattice (2-D), \
-         under the affine images id, +1e3 (budgets <= 6 in f32), x1e-3 (f32 and f64) and 1e3+1e-3x (f64 only); 1-D multisets of more than {n1a} points under the identity image only; metrics L2, L1; k = 1..min(n,{k}). \
+         under the affine images id, +1e3 (budgets <= 6 in f32), x1e-3 (f32 and f64) and 1e3+1e-3x (f64 only); 1-D multisets of more than {n1a} points under the identity image only; metrics L2, L1 (+ Linf, Lp(3) on the 2-D sets; seeded family: identity image only for these two); k = 1..min(n,{k}). \
          trajectory cases = dataset x float x metric x k x Precomputed start (EVERY distinct k-sub-multiset of the data rows + 2 off-data starts, one with a permanently empty cluster) x tolerance {{1e-4,1e-2}}; \
          per case the real fit runs with max_n_iterations(m) and n_runs(1), n_runs(2), n_runs(3) (same start for every restart, so the same answer is demanded) for every m = 1..={b} and is compared with the set of states the reference m_k-means step reaches after m transitions (ties branch). \
          seeded cases = dataset (id image; all images for n<=3) x float x metric x k x {{random, kmeans++, kmeans||}} x seed 0..{s} x iteration cap {caps:?}, tolerance 1e-4; per case single-restart fits of restart 1..={r} and fits with n_runs = 2..={r} from the same seed; for L2 and every (dataset, initialiser, seed) additionally fits with n_runs in {{2, {r}}} for every budget 1..={lad}, cost of the returned centroids compared along the budgets. \
          replicated cases = every set of 2..3 distinct points of {{0..4}} (1-D) and of {{(0,0),(0,1),(1,0),(1,1),(2,2)}} (2-D) under the images id and +1e3, every point repeated so that n is one of {{1024, 1025, 2049, 3000}} (thorough: also 1023, 2048, 4097; remainder to the first point), rows contiguous per point or round-robin, f64, L2 (thorough: + L1), k = 1..min(p,3), every k-subset of the distinct points as Precomputed start, budgets 1..=3, n_runs(1): same lock-step oracle with the reference step working on (point, multiplicity) pairs (copies of a point are identical rows and go to the same centroid), predict / transform on the distinct points. \
+         wide cases = 3 point sets of 6 points (hand-built axes set, generic-position lattice + jitter, sparse) in d = 16, 17, 33, 40 features x {{L2, L1, Linf, Lp(3)}} x f64 (+ f32 for d = 17) x k = 2..3 x every k-subset of the points as Precomputed start, budgets 1..=2, n_runs 1..3, same oracles (queries: pairwise midpoints, origin, far point). \
          evaluations = fits of the real code; non-trivial = fits with k >= 2 on data with >= 2 distinct rows; every fitted model additionally gets predict (batch, single row) / transform evaluations on its training rows and on the lattice + half-lattice + far query points (first and last fit of a case). \
          states / transitions = distinct reference states (centroid set, stopped flag) per level / reference steps.",
         lad = ladder, n1 = n1_max, n1a = n1_all_images, n2 = n2_max, k = k_max, b = budgets, s = seeds, caps = iter_caps, r = max_runs
     ));
-    ctx.assume("reference = plain f64 m_k-means step (nearest centroid under the metric's reduced distance, centroid := mean of assigned points and previous position) on the coordinates as rounded to the subject's float type; stop rule = matrix distance between consecutive centroid sets < tolerance (for L1 either the L1 or the euclidean matrix distance is admitted, rustdoc says euclidean, code uses the metric)");
+    ctx.assume("reference = plain f64 m_k-means step (nearest centroid under the metric's reduced distance, centroid := mean of assigned points and previous position) on the coordinates as rounded to the subject's float type; stop rule = matrix distance between consecutive centroid sets < tolerance (for L1 / Linf / Lp(3) either the metric's own or the euclidean matrix distance is admitted, rustdoc says euclidean, code uses the metric); reduced distance = squared distance for L2, the distance itself for L1, Linf, Lp(3)");
     ctx.assume("ties: reduced distances closer than tie = 4*diam*e_c + 64*eps*diam^2 (e_c = 2(n+2)*eps*max|coord|, eps = machine epsilon of the float type) are treated as tied; the reference branches over every tie resolution and the implementation may follow any branch; a step whose ties multiply to > 4096 branches (or a level of > 20000 states) switches the trajectory oracle off for the case (counted)");
     ctx.assume("centroid equality with a reference state: max abs coordinate difference <= max(rel*max|coord|, 4 e_c), rel = 1e-9 (f64) / 1e-4 (f32); inertia vs recomputed mean cost: rel + tie absolute; a stop criterion within rel*tol + 2 e_c sqrt(kd) of the tolerance admits both stopping and continuing");
-    ctx.assume("cost monotonicity (L2 only, a theorem for m_k-means): cost(m+1) <= cost(m) + n*tie + 1e-12*cost(m), cost recomputed by the harness from the returned centroids; for L1 only the recurrence is checked; asserted for n_runs = 1, 2, 3 from a Precomputed start and for n_runs > 1 from seeded starts (same seed => same start of every restart whatever the budget; the minimum over restarts of non-increasing costs is non-increasing)");
+    ctx.assume("cost monotonicity (L2 only, a theorem for m_k-means): cost(m+1) <= cost(m) + n*tie + 1e-12*cost(m), cost recomputed by the harness from the returned centroids; for L1, Linf and Lp(3) only the recurrence is checked (no monotonicity claim); asserted for n_runs = 1, 2, 3 from a Precomputed start and for n_runs > 1 from seeded starts (same seed => same start of every restart whatever the budget; the minimum over restarts of non-increasing costs is non-increasing)");
     ctx.assume("restart monotonicity is compared exactly (<=) on the reported values; k-means|| draws per-rayon-job generators, every case runs in its own 1-thread rayon pool so results are schedule independent (schedules are C20's subject)");
     ctx.assume("predict: any centroid within 64*eps*(largest reduced distance of the point) of the minimum is accepted; cluster_count must be the histogram of SOME nearest-centroid assignment of the training rows to the returned centroids (tie sets, exact feasibility search)");
     ctx.assume("triage signatures: 'before_last_update' is assigned only when the reported value equals the cost / histogram of a centroid set P with update(P) = returned centroids (P known from the reference trajectory, or solved exactly from P_c = (n_c+1) C_c - S_c over all k^n assignments); 'from_last_restart' only when the counts equal those of a single-restart fit of the last restart started from the read-back generator state");
@@ -1311,7 +1321,9 @@ fn main() {
                 let data = map(&ds.base);
                 let queries = map(&base_queries(ds.dim));
                 let family = format!("{}/{}", ds.family, img);
-                for metric in ["L2", "L1"] {
+                // in one dimension Linf and Lp coincide with L1: the two extra metrics run on the 2-D sets
+                let metrics: Vec<&str> = if ds.dim == 2 { vec!["L2", "L1", "Linf", "Lp3"] } else { vec!["L2", "L1"] };
+                for metric in metrics {
                     for k in 1..=n.min(k_max) {
                         // ---- trajectory cases
                         let mut inits: Vec<(Vec<Vec<f64>>, bool)> = Vec::new();
@@ -1355,7 +1367,7 @@ fn main() {
                             }
                         }
                         // ---- seeded cases
-                        if img == "id" || n <= 3 {
+                        if (img == "id" || n <= 3) && (img == "id" || metric == "L2" || metric == "L1") {
                             for init_kind in ["random", "kmeans++", "kmeans||"] {
                                 for seed in 0..seeds {
                                     for &cap in &iter_caps {
@@ -1447,6 +1459,98 @@ fn main() {
         }
     }
     ctx.extra("cases_replicated", json!(n_repl));
+
+    // ---------------- wide family: d in {16, 17, 33, 40} features, all four metrics. The reduced distance
+    // of Linf / Lp is NOT a sum over feature blocks; the point sets put the differences to the competing
+    // centroids into different 16-feature blocks so that the true nearest centroid differs from what any
+    // block-wise accumulation would pick.
+    let mut n_wide = 0u64;
+    for &dw in &[16usize, 17, 33, 40] {
+        let unit = |pairs: &[(usize, f64)]| -> Vec<f64> {
+            let mut v = vec![0.0; dw];
+            for &(j, x) in pairs {
+                v[j.min(dw - 1)] += x;
+            }
+            v
+        };
+        let mut wsets: Vec<(&str, Vec<Vec<f64>>)> = Vec::new();
+        // A: hand-built: origin is Linf/Lp-nearest to e_0 + e_{d-1} (1 resp. 2^(1/3)) but 1.5 e_1 wins a block sum (1 + 1)
+        wsets.push((
+            "wide_axes",
+            vec![
+                unit(&[(1, 1.5)]),
+                unit(&[(0, 1.0), (dw - 1, 1.0)]),
+                unit(&[]),
+                unit(&[(5, 0.25)]),
+                unit(&[(0, 1.0), (dw - 1, 1.0), (3, 0.125)]),
+                unit(&[(dw - 2, 2.0), (2, 0.5)]),
+            ],
+        ));
+        // B: generic position: lattice values {0,1,2} + constant jitter table in every coordinate
+        wsets.push((
+            "wide_generic",
+            (0..6usize).map(|i| (0..dw).map(|j| ((i * 7 + j * 3 + i * j) % 3) as f64 + en::jitter(i, j)).collect()).collect(),
+        ));
+        // C: sparse: point i has (i+1)/2 at coordinates i, 16+i, 32+i (those that exist)
+        wsets.push((
+            "wide_sparse",
+            (0..6usize)
+                .map(|i| {
+                    let mut v = vec![0.0; dw];
+                    for b in 0..3 {
+                        let j = 16 * b + i;
+                        if j < dw {
+                            v[j] = (i as f64 + 1.0) * 0.5 + 0.0625 * b as f64;
+                        }
+                    }
+                    v
+                })
+                .collect(),
+        ));
+        for (fam, pts) in &wsets {
+            let np = pts.len();
+            // queries: every pairwise midpoint, the origin, a far point
+            let mut queries: Vec<Vec<f64>> = Vec::new();
+            for a in 0..np {
+                for b in a + 1..np {
+                    queries.push((0..dw).map(|j| (pts[a][j] + pts[b][j]) / 2.0).collect());
+                }
+            }
+            queries.push(vec![0.0; dw]);
+            queries.push((0..dw).map(|j| if j % 2 == 0 { 100.0 } else { -75.0 }).collect());
+            let floats: Vec<&str> = if dw == 17 { vec!["f64", "f32"] } else { vec!["f64"] };
+            for float in floats {
+                for metric in ["L2", "L1", "Linf", "Lp3"] {
+                    for k in 2..=3usize {
+                        for sub in en::k_subsets(np, k) {
+                            cases.push(Case {
+                                kind: "wide".into(),
+                                family: format!("{}/d{}", fam, dw),
+                                data: pts.clone(),
+                                float: float.into(),
+                                metric: metric.into(),
+                                k,
+                                tol: 1e-4,
+                                queries: queries.clone(),
+                                init: sub.iter().map(|&i| pts[i].clone()).collect(),
+                                init_from_data: true,
+                                budgets: 2,
+                                init_kind: String::new(),
+                                seed: 0,
+                                max_runs: 0,
+                                max_iter: 0,
+                                ladder: 0,
+                                mult: vec![],
+                                interleave: false,
+                            });
+                            n_wide += 1;
+                        }
+                    }
+                }
+            }
+        }
+    }
+    ctx.extra("cases_wide", json!(n_wide));
     ctx.extra("cases_enumerated", json!(cases.len()));
     ctx.extra("cases_trajectory", json!(n_traj));
     ctx.extra("cases_seeded", json!(n_seeded));
